@@ -32,7 +32,7 @@
    harness/c19.py.  It is proved below under exactly the two hypotheses that exclude them. *)
 From Coq Require Import ZArith List Bool.
 From Batchie Require Import Model.Orchestrate Proofs.C19Base Proofs.C19Canon Proofs.C19Step Proofs.C19Main
-  Proofs.C19Invocation Proofs.C19InvocationThm.
+  Proofs.C19Invocation Proofs.C19InvocationThm Generated.SrcOrchestrate Proofs.C19Source.
 Import ListNotations.
 
 (* For EVERY crash schedule (any number of crashes, at any event of any call), batch size, number of
@@ -301,3 +301,32 @@ Example C19_retro_invocation_returns :
   map (call_returns Retro 2) (r_calls r) = [Some true; Some true; Some true; Some false] /\
   r_end r = IReturned /\ length (r_rest r) = 1%nat.
 Proof. vm_compute. repeat split; reflexivity. Qed.
+
+(* ---- source-translation links: the model IS the script ----
+   src_* (Generated/SrcOrchestrate.v) are whole functions of /repo's nextflow/scripts/batchie.py, re-translated into Gallina
+   by harness/py2gal.py on every run (configurations C19_* in harness/src_functions.py).  A path the script holds is the
+   model value it denotes (the output directory = the tree, a globbed iteration directory = (index, its plate directories),
+   a globbed plate directory = ((i, j), its files)); exceptions live in Orchestrate.sres (SNamed = a RuntimeError naming a
+   job directory, as XNamed).  Trusted: the translator and the primitives listed in harness/c19.py EXPLANATION. *)
+
+(* examine_output_dir_to_determine_current_iteration, the whole function: the two filtered and numerically sorted globs,
+   the loop over iteration directories with its `continue` on one without plate directories, `current_plate_idx = 0`,
+   the enumerate loop with the two raises and the directory they name, the three Optionals, the leaked loop variable
+   plate_dir that get_screen_from_job_output is applied to, the next-step arithmetic and both returns - equal to the
+   model's examine with fixed = true, for EVERY tree and batch size *)
+Theorem C19_model_is_source_examine : forall (f : fs) (bs : Z),
+  src_examine f bs = sres_of_xres (examine true bs f).
+Proof. exact src_examine_is_model. Qed.
+Print Assumptions C19_model_is_source_examine.
+
+(* the translation determines the model parameter: the source is the repaired examine and no other *)
+Theorem C19_model_is_source_examine_determines_fixed : forall fixed,
+  (forall f bs, src_examine f bs = sres_of_xres (examine fixed bs f)) <-> fixed = true.
+Proof. exact src_examine_determines_fixed. Qed.
+Print Assumptions C19_model_is_source_examine_determines_fixed.
+
+(* ... and differs from the unrepaired one on the tree of C19_resume_refuted_empty_iter's witness *)
+Theorem C19_model_is_source_examine_not_unrepaired :
+  src_examine tree_empty_iter 2 <> sres_of_xres (examine false 2 tree_empty_iter).
+Proof. exact src_examine_not_unrepaired. Qed.
+Print Assumptions C19_model_is_source_examine_not_unrepaired.
